@@ -121,67 +121,100 @@ theorem scan_err_has_token (cls : Classes) (m : Mode) (src : List Char) :
   unfold scan
   exact (scanAll_spec cls m (St.init src) _ _ _ (St.le_refl _)).2.2
 
-/-! ## token fusion in the unary-operator printer (lib/parser/ast.go) -/
+/-! ## token fusion in the unary-operator printer (lib/parser/ast.go, after c4eeafc and 98baed3) -/
 
-/-
-  Full statement (FALSE for the current code — pre-finding F19):
-      theorem unary_print_no_comment (e : UExpr) (h : e.atomsClean) : hasCommentOpener e.print = false
-  `UnaryArithmetic.String()` is `Operator + Operand.String()`, so `- -1` prints as `--1`.
--/
-theorem unary_print_counterexample :
-    (UExpr.neg (.neg (.atom ['1']))).atomsClean = true ∧
-    (UExpr.neg (.neg (.atom ['1']))).print = ['-', '-', '1'] ∧
-    hasCommentOpener (UExpr.neg (.neg (.atom ['1']))).print = true := by decide
-
-/-- exactly when: the printed text contains a comment opener iff some unary minus is applied directly
-    to an operand whose text begins with `-` -/
-theorem unary_print_comment_iff (e : UExpr) (h : e.atomsClean = true) :
-    hasCommentOpener e.print = !e.noMinusMinus := by
+/-- FULL statement: the printed text of any tree of unary `-`, `+`, `!` and parentheses over operands whose
+    own text has no comment opener contains neither `--` nor `/*`. -/
+theorem unary_print_no_comment (e : UExpr) (h : e.atomsClean = true) : hasCommentOpener e.print = false := by
   induction e with
-  | atom t => simpa [UExpr.atomsClean, UExpr.print, UExpr.noMinusMinus] using h
+  | atom t => simpa [UExpr.atomsClean, UExpr.print] using h
+  | neg e ih =>
+    have ih := ih h
+    simp only [UExpr.print]
+    split
+    · simp [hco_cons_minus, startsWith, hco_cons_other ' ' _ (by decide) (by decide), ih]
+    · rename_i hn
+      simp [hco_cons_minus, ih, hn]
+  | pos e ih => simpa [UExpr.print, hco_cons_other '+' _ (by decide) (by decide)] using ih h
+  | bang e ih =>
+    have ih := ih h
+    simp only [UExpr.print]
+    split
+    · simp [hco_cons_other '!' _ (by decide) (by decide), hco_cons_other ' ' _ (by decide) (by decide), ih]
+    · simp [hco_cons_other '!' _ (by decide) (by decide), ih]
+  | paren e ih =>
+    simpa [UExpr.print, hco_cons_other '(' _ (by decide) (by decide), hco_append_close] using ih h
+
+/-- FULL statement: `!`s never fuse — the printed text contains no `!` immediately followed by an operator rune
+    (`= > < ! | :`), provided no operand text begins with an operator rune or contains such a pair itself. -/
+theorem unary_print_no_bang_fusion (e : UExpr) (h : e.atomsNoOp = true) : hasBangFusion e.print = false := by
+  induction e with
+  | atom t =>
+    simp [UExpr.atomsNoOp] at h
+    simpa [UExpr.print] using h.2
+  | neg e ih =>
+    have ih := ih h
+    simp only [UExpr.print]
+    split
+    · simp [hbf_cons_other '-' _ (by decide), hbf_cons_other ' ' _ (by decide), ih]
+    · simp [hbf_cons_other '-' _ (by decide), ih]
+  | pos e ih => simpa [UExpr.print, hbf_cons_other '+' _ (by decide)] using ih h
+  | bang e ih =>
+    have ih' := ih h
+    simp only [UExpr.print]
+    split
+    · simp [hbf_cons_bang, startsOp, opRune, hbf_cons_other ' ' _ (by decide), ih']
+    · rename_i hn
+      have : startsOp e.print = false := by
+        cases hs : startsOp e.print with
+        | false => rfl
+        | true => exact absurd (startsOp_print e h hs) hn
+      simp [hbf_cons_bang, this, ih']
+  | paren e ih =>
+    simpa [UExpr.print, hbf_cons_other '(' _ (by decide), hbf_append_close] using ih h
+
+/-- the hypothesis of `unary_print_no_bang_fusion` is needed: a named placeholder `:a` (prepared-statement mode)
+    under `!` still prints `!:a`, one unrecognised operator token `!:` -/
+theorem unary_print_bang_placeholder_counterexample :
+    (UExpr.bang (.atom [':', 'a'])).print = ['!', ':', 'a'] ∧
+    hasBangFusion (UExpr.bang (.atom [':', 'a'])).print = true ∧
+    ((scan asciiClasses ⟨true, false⟩ (UExpr.bang (.atom [':', 'a'])).print).toks.map (·.kind)) =
+      [.uncategorized, .identifier, .eof] := by decide
+
+/-- what the scanner makes of the printed `- -1` and `! !a`: the intended tokens -/
+theorem unary_print_scans_to_tokens :
+    ((scan asciiClasses ⟨false, false⟩ (UExpr.neg (.neg (.atom ['1']))).print).toks.map (·.kind)) =
+      [.rune '-', .rune '-', .integer, .eof] ∧
+    ((scan asciiClasses ⟨false, false⟩ (UExpr.bang (.bang (.atom ['a']))).print).toks.map (·.kind)) =
+      [.rune '!', .rune '!', .identifier, .eof] := by decide
+
+/-! ### facts about the printer BEFORE the repairs (`printOld`; pre-findings F19 / F34, now fixed) -/
+
+theorem unary_printOld_counterexample :
+    (UExpr.neg (.neg (.atom ['1']))).atomsClean = true ∧
+    (UExpr.neg (.neg (.atom ['1']))).printOld = ['-', '-', '1'] ∧
+    hasCommentOpener (UExpr.neg (.neg (.atom ['1']))).printOld = true ∧
+    ((scan asciiClasses ⟨false, false⟩ (UExpr.neg (.neg (.atom ['1']))).printOld).toks.map (·.kind)) = [.eof] := by
+  decide
+
+theorem unary_printOld_not_fusion_counterexample :
+    ((scan asciiClasses ⟨false, false⟩ (UExpr.bang (.bang (.atom ['a']))).printOld).toks.map (·.kind)) =
+      [.uncategorized, .identifier, .eof] := by decide
+
+/-- the old printer produced a comment opener exactly when a unary minus met an operand text beginning with `-` -/
+theorem unary_printOld_comment_iff (e : UExpr) (h : e.atomsClean = true) :
+    hasCommentOpener e.printOld = !e.noMinusMinus := by
+  induction e with
+  | atom t => simpa [UExpr.atomsClean, UExpr.printOld, UExpr.noMinusMinus] using h
   | neg e ih =>
     have := ih h
-    simp [UExpr.print, UExpr.noMinusMinus, hco_cons_minus, this]
+    simp [UExpr.printOld, UExpr.noMinusMinus, hco_cons_minus, this]
   | pos e ih =>
-    simpa [UExpr.print, UExpr.noMinusMinus, hco_cons_other '+' _ (by decide) (by decide)] using ih h
+    simpa [UExpr.printOld, UExpr.noMinusMinus, hco_cons_other '+' _ (by decide) (by decide)] using ih h
   | bang e ih =>
-    simpa [UExpr.print, UExpr.noMinusMinus, hco_cons_other '!' _ (by decide) (by decide)] using ih h
+    simpa [UExpr.printOld, UExpr.noMinusMinus, hco_cons_other '!' _ (by decide) (by decide)] using ih h
   | paren e ih =>
-    simpa [UExpr.print, UExpr.noMinusMinus, hco_cons_other '(' _ (by decide) (by decide), hco_append_close] using ih h
-
-theorem unary_print_partial (e : UExpr) (h : e.atomsClean = true) (hn : e.noMinusMinus = true) :
-    hasCommentOpener e.print = false := by
-  rw [unary_print_comment_iff e h, hn]; rfl
-
-/-- the repaired printer (a space after the unary operator) never produces a comment opener -/
-theorem unary_printSep_no_comment (e : UExpr) (h : e.atomsClean = true) :
-    hasCommentOpener e.printSep = false := by
-  induction e with
-  | atom t => simpa [UExpr.atomsClean, UExpr.printSep] using h
-  | neg e ih =>
-    simp [UExpr.printSep, hco_cons_minus, startsWith, hco_cons_other ' ' _ (by decide) (by decide), ih h]
-  | pos e ih =>
-    simp [UExpr.printSep, hco_cons_other '+' _ (by decide) (by decide),
-      hco_cons_other ' ' _ (by decide) (by decide), ih h]
-  | bang e ih =>
-    simp [UExpr.printSep, hco_cons_other '!' _ (by decide) (by decide),
-      hco_cons_other ' ' _ (by decide) (by decide), ih h]
-  | paren e ih =>
-    simp [UExpr.printSep, hco_cons_other '(' _ (by decide) (by decide), hco_append_close, ih h]
-
-/-- what the scanner makes of the printed `- -1`: nothing but EOF (the whole text is a line comment),
-    whereas the repaired text gives the intended tokens -/
-theorem unary_minus_counterexample_scan :
-    ((scan asciiClasses ⟨false, false⟩ (UExpr.neg (.neg (.atom ['1']))).print).toks.map (·.kind)) = [.eof] ∧
-    ((scan asciiClasses ⟨false, false⟩ (UExpr.neg (.neg (.atom ['1']))).printSep).toks.map (·.kind)) =
-      [.rune '-', .rune '-', .integer, .eof] := by decide
-
-/-- `! !a` prints as `!!a`, which scans as ONE unrecognised operator token instead of two `!` -/
-theorem unary_not_fusion_counterexample :
-    ((scan asciiClasses ⟨false, false⟩ (UExpr.bang (.bang (.atom ['a']))).print).toks.map (·.kind)) =
-      [.uncategorized, .identifier, .eof] ∧
-    ((scan asciiClasses ⟨false, false⟩ (UExpr.bang (.bang (.atom ['a']))).printSep).toks.map (·.kind)) =
-      [.rune '!', .rune '!', .identifier, .eof] := by decide
+    simpa [UExpr.printOld, UExpr.noMinusMinus, hco_cons_other '(' _ (by decide) (by decide), hco_append_close] using ih h
 
 /-! ## non-vacuity -/
 
@@ -197,7 +230,11 @@ example : (scan asciiClasses ⟨false, false⟩ ['\'', 'a']).err = some .literal
 -- positions over CR LF
 example : (scan asciiClasses ⟨false, true⟩ ['a', '\r', '\n', ' ', '"', 'b', '"']).toks.map (fun t => (t.kind, t.quoted, t.line, t.col)) =
     [(.identifier, false, 1, 1), (.identifier, true, 2, 2), (.eof, false, 2, 4)] := by decide
--- a tree that satisfies the hypotheses of unary_print_partial
-example : (UExpr.neg (.paren (.neg (.atom ['1'])))).atomsClean = true ∧ (UExpr.neg (.paren (.neg (.atom ['1'])))).noMinusMinus = true := by decide
+-- trees that satisfy the hypotheses of unary_print_no_comment / unary_print_no_bang_fusion, and what they print
+example : (UExpr.neg (.neg (.bang (.bang (.atom ['a']))))).atomsClean = true ∧
+    (UExpr.neg (.neg (.bang (.bang (.atom ['a']))))).atomsNoOp = true ∧
+    (UExpr.neg (.neg (.bang (.bang (.atom ['a']))))).print = ['-', ' ', '-', '!', ' ', '!', 'a'] := by decide
+example : (UExpr.neg (.neg (.atom ['1']))).print = ['-', ' ', '-', '1'] ∧ (UExpr.neg (.paren (.neg (.atom ['2'])))).print = ['-', '(', '-', '2', ')'] ∧
+    (UExpr.neg (.atom ['1'])).print = ['-', '1'] ∧ (UExpr.bang (.bang (.atom ['T']))).print = ['!', ' ', '!', 'T'] := by decide
 
 end Csvq.C18
